@@ -237,6 +237,14 @@ def rule_print_args(check):
         e = hir.peel(e["recv"])
     ok = chain == ["and_then", "file_name"] and hir.is_call(e) and hir.callee_name(e) == "new" and "Path" in e["callee"]["path"]
     check.expect(ok, R, R + "/file_name", hir.loc(fnm.rec), "file_name = Path::new(file).file_name()", "util::file_name is computed as %s" % chain)
+    # ... of the whole path handed in: `what?.js`, `c#/x.js` are file names like any other (seed
+    # C09-source-name-strips-query-and-hash cut the path at `?` / `#` first)
+    if ok:
+        from ..prov import Prov as _Prov
+
+        os_ = _Prov(prog).origins(fnm, hir.call_args(e)[0])
+        whole = bool(os_) and all(r[0] == "param" and r[2] == 0 for r, _p in os_)
+        check.expect(whole, R, R + "/file_name-whole-path", hir.loc(fnm.rec), "Path::new is given the parameter itself", "util::file_name takes the base name of a value derived from its parameter (%s), not of the path itself: the map's `sources` entry is not the input's base name for some paths" % sorted(origin_str(o) for o in os_))
 
 
 def rule_print_path(check):
